@@ -23,6 +23,7 @@ type replayFile struct {
 	Finding  string            `json:"finding"`
 	Vars     map[string]uint64 `json:"vars"`
 	Tier     int               `json:"tier"`
+	Schedule []int             `json:"schedule"`
 }
 
 type stop struct{ why string }
@@ -36,7 +37,6 @@ var (
 	failed    string
 	failMsg   string
 	assumeBad bool
-	wg        sync.WaitGroup
 	budget    int64 = -1
 	alloc0    uint64
 	clockFn   func() int64
@@ -204,28 +204,190 @@ func AllocBudget(n int) {
 	alloc0 = ms.TotalAlloc
 }
 
+// ---- cooperative scheduler (native replay of concurrency counterexamples) ----
+//
+// Exactly one thread holds the token at any time. The replay file carries
+// "schedule": the id of the thread that runs after every scheduling event of
+// the engine (a yield before a visible operation, one iteration of a blocked
+// wait, a thread exit). The kernel's source file is instrumented for the replay
+// (Point() before every atomic operation, Lock()/RLock() instead of mutex
+// locks), so events are counted one to one. When the schedule is exhausted the
+// remaining threads run to completion in id order.
+
+type thr struct {
+	id   int
+	wake chan struct{}
+	done bool
+}
+
+var (
+	threads  []*thr
+	curThr   *thr
+	schedule []int
+	schedPos int
+	aborted  bool
+)
+
+func schedInit(s []int) {
+	threads = []*thr{{id: 0, wake: make(chan struct{}, 1)}}
+	curThr = threads[0]
+	schedule = s
+	schedPos = 0
+}
+
+func nextEvent() int {
+	if schedPos < len(schedule) {
+		t := schedule[schedPos]
+		schedPos++
+		return t
+	}
+	return -1
+}
+
+func otherRunnable(me *thr) *thr {
+	for _, t := range threads {
+		if t != me && !t.done {
+			return t
+		}
+	}
+	return nil
+}
+
+func handoff(me *thr, to *thr) {
+	if to == nil || to == me || to.done {
+		return
+	}
+	curThr = to
+	to.wake <- struct{}{}
+	<-me.wake
+	if aborted && me.id != 0 {
+		runtime.Goexit()
+	}
+}
+
+func pick(me *thr, id int, mustSwitch bool) *thr {
+	if id >= 0 && id < len(threads) && !threads[id].done && (threads[id] != me || !mustSwitch) {
+		return threads[id]
+	}
+	if mustSwitch {
+		return otherRunnable(me)
+	}
+	return me
+}
+
+// Point is one scheduling event before a visible operation.
+func Point() struct{} {
+	if len(threads) == 0 {
+		return struct{}{}
+	}
+	me := curThr
+	handoff(me, pick(me, nextEvent(), false))
+	return struct{}{}
+}
+
+// Seq sequences a Point before a visible call in any expression position.
+func Seq[T any](_ struct{}, v T) T { return v }
+
+type tryLocker interface {
+	TryLock() bool
+}
+type tryRLocker interface {
+	TryRLock() bool
+}
+
+// Lock is the cooperative form of m.Lock().
+func Lock(m tryLocker) {
+	Point()
+	for !m.TryLock() {
+		me := curThr
+		to := pick(me, nextEvent(), true)
+		if to == nil {
+			panic("verifsym: deadlock in native replay (Lock)")
+		}
+		handoff(me, to)
+	}
+}
+
+// RLock is the cooperative form of m.RLock().
+func RLock(m tryRLocker) {
+	Point()
+	for !m.TryRLock() {
+		me := curThr
+		to := pick(me, nextEvent(), true)
+		if to == nil {
+			panic("verifsym: deadlock in native replay (RLock)")
+		}
+		handoff(me, to)
+	}
+}
+
 func Go(f func()) {
-	wg.Add(1)
+	if len(threads) == 0 {
+		schedInit(nil)
+	}
+	t := &thr{id: len(threads), wake: make(chan struct{}, 1)}
+	threads = append(threads, t)
 	go func() {
-		defer wg.Done()
-		defer func() {
-			if r := recover(); r != nil {
-				if _, ok := r.(stop); ok {
-					return
+		<-t.wake
+		func() {
+			defer func() {
+				if r := recover(); r != nil {
+					if _, ok := r.(stop); !ok {
+						mu.Lock()
+						if failed == "" {
+							failed = "no-panic"
+							failMsg = fmt.Sprint(r)
+						}
+						mu.Unlock()
+					}
+					aborted = true
 				}
-				mu.Lock()
-				if failed == "" {
-					failed = "no-panic"
-					failMsg = fmt.Sprint(r)
-				}
-				mu.Unlock()
-			}
+			}()
+			f()
 		}()
-		f()
+		t.done = true
+		if aborted {
+			// give the token back to the main thread, which stops the replay
+			curThr = threads[0]
+			threads[0].wake <- struct{}{}
+			return
+		}
+		to := pick(t, nextEvent(), true)
+		if to == nil {
+			return
+		}
+		curThr = to
+		to.wake <- struct{}{}
 	}()
 }
-func Wait()                        { wg.Wait() }
-func Yield()                       { runtime.Gosched() }
+
+func allOthersDone() bool {
+	for _, t := range threads[1:] {
+		if !t.done {
+			return false
+		}
+	}
+	return true
+}
+
+func Wait() {
+	if len(threads) == 0 {
+		return
+	}
+	me := threads[0]
+	for !allOthersDone() && !aborted {
+		to := pick(me, nextEvent(), true)
+		if to == nil {
+			break
+		}
+		handoff(me, to)
+	}
+	if aborted {
+		panic(stop{"a thread stopped the replay"})
+	}
+}
+
+func Yield() { Point() }
 func Tier() int                    { return cur.Tier }
 func Symbolic() bool               { return false }
 func Concrete(v int) int           { return v }
@@ -270,6 +432,7 @@ func Replay(t *testing.T, entries map[string]func()) {
 	}
 	nameCnt = map[string]int{}
 	preds = map[string]bool{}
+	schedInit(cur.Schedule)
 	func() {
 		defer func() {
 			if r := recover(); r != nil {
